@@ -596,7 +596,7 @@ Qed.
 Definition wf_admin (a : admin_record) : Prop :=
   match a with
   | AdminStatus r => wf_status_report r
-  | AdminOther t c => t < two64 /\ t <> 1 /\ Cbor.wf c /\ (depth c <= 6)%nat
+  | AdminOther t c => t < two64 /\ t <> 1 /\ Cbor.wf c /\ (depth c <= 6)%nat /\ (forall bs, c <> CBstr bs)
   end.
 
 Lemma cbor_of_admin_wf a : wf_admin a -> Cbor.wf (cbor_of_admin a) /\ (depth (cbor_of_admin a) <= bundle_fuel)%nat.
@@ -606,7 +606,7 @@ Proof.
     + apply wf_CArr. split; [cbn; lia|]. apply Forall_cons; [cbn; lia|].
       apply Forall_cons; [apply status_report_items_wf, H|apply Forall_nil].
     + pose proof (status_report_items_depth r). cbn [depth fold_right] in *. unfold bundle_fuel. lia.
-  - intros (Ht & _ & Hc & Hd). split.
+  - intros (Ht & _ & Hc & Hd & _). split.
     + apply wf_CArr. split; [cbn; lia|]. repeat (apply Forall_cons; [first [exact Hc | cbn; lia]|]). apply Forall_nil.
     + cbn [depth fold_right]. unfold bundle_fuel. lia.
 Qed.
@@ -634,7 +634,8 @@ Proof.
   unfold decode_admin_record_gen, encode_admin_record. rewrite decode_one_strict_encode by assumption.
   destruct a as [r|t c]; cbn [cbor_of_admin admin_of_cbor].
   - rewrite N.eqb_refl. rewrite status_report_tree_roundtrip by assumption. reflexivity.
-  - destruct Hwf as (_ & Hne & _). destruct (N.eqb_spec t 1); [contradiction|reflexivity].
+  - destruct Hwf as (_ & Hne & _ & _ & Hnb). destruct (N.eqb_spec t 1); [contradiction|].
+    destruct c; try reflexivity. exfalso. eapply Hnb. reflexivity.
 Qed.
 
 Theorem status_report_roundtrip r :
@@ -724,7 +725,7 @@ Proof.
   - destruct body as [| | | |l| | |]; try discriminate.
     destruct (status_report_of_items reason_ok l) as [r|] eqn:E2; [|discriminate].
     injection H as <-. cbn [cbor_of_admin]. rewrite (status_report_of_items_inv _ _ _ E2). reflexivity.
-  - injection H as <-. reflexivity.
+  - destruct body; try discriminate; injection H as <-; reflexivity.
 Qed.
 
 (** * When the implementation guard holds *)
